@@ -26,8 +26,9 @@ def valid_candles(levels):
                     yield (o, h, l, c)
 
 
-def _split_all(_):
+def _split_all(scale):
     from jesse.services.candle import split_candle
+    base, tick = (0.0, 1.0) if not scale else (scale[0], scale[1])
     out = {'n': 0, 'viols': []}
     seen = set()
 
@@ -42,10 +43,11 @@ def _split_all(_):
         prices = sorted({l + k * 0.5 for k in range(int((h - l) * 2) + 1)})
         for p in prices:
             out['n'] += 1
-            case = {'split': [o, h, l, c], 'price': p}
-            cand = np.array([1000.0, o, c, h, l, 7.0])
+            case = {'split': [o, h, l, c], 'price': p, 'scale': list(scale) if scale else None}
+            o_, h_, l_, c_, p_ = (base + tick * x for x in (o, h, l, c, p))
+            cand = np.array([1000.0, o_, c_, h_, l_, 7.0])
             try:
-                res = split_candle(cand.copy(), float(p))
+                res = split_candle(cand.copy(), float(p_))
             except Exception as e:
                 bad('split-raises', {'exc': type(e).__name__}, case, 'split_candle raised %r' % (e,))
                 continue
@@ -59,10 +61,10 @@ def _split_all(_):
                 if not (part[4] <= min(part[1], part[2]) and max(part[1], part[2]) <= part[3]):
                     bad('split-invalid-part', {'part': name, 'price_at': rel, 'bullish': bull}, case,
                         '%s part of split(%s, %r) is not a valid candle: o=%r c=%r h=%r l=%r' % (name, (o, h, l, c), p, part[1], part[2], part[3], part[4]))
-            if a[1] != o or b[2] != c or max(a[3], b[3]) != h or min(a[4], b[4]) != l:
+            if a[1] != o_ or b[2] != c_ or max(a[3], b[3]) != h_ or min(a[4], b[4]) != l_:
                 bad('split-loses-extreme', {'price_at': rel, 'bullish': bull}, case,
                     'split(%s, %r) = %s | %s does not keep open/close/high/low' % ((o, h, l, c), p, a[1:5].tolist(), b[1:5].tolist()))
-            if p != o and (a[2] != p or b[1] != p):
+            if p != o and (a[2] != p_ or b[1] != p_):
                 bad('split-parts-do-not-meet', {'price_at': rel, 'bullish': bull}, case,
                     'split(%s, %r): earlier closes at %r, later opens at %r' % ((o, h, l, c), p, a[2], b[1]))
     return out
@@ -136,14 +138,18 @@ def _word(args):
 def run(ctx):
     cov = ctx.coverage
     emb = ctx.embedding
-    r = _split_all(None)
-    ctx.count('split_candle', r['n'])
-    cov['transitions'] += r['n']
-    ctx.extend(Violation.from_json(v) for v in r['viols'])
+    for sc in [None, emb] + list(core.SCALES):
+        r = _split_all(sc)
+        ctx.count('split_candle', r['n'])
+        cov['transitions'] += r['n']
+        ctx.extend(Violation.from_json(v) for v in r['viols'])
     P = probe_programs(emb[1], emb[2])
     if ctx.quick:
         P = [p for i, p in enumerate(P) if i % 2 == 0 or 'react' in p[0] and not p[0].endswith('N')]
     jobs = [(cd, pn, sp, emb) for cd in valid_candles(LEVELS) for pn, sp in P]
+    for sc in core.SCALES:       # micro-priced and very expensive symbols, reduced program menu
+        Psc = [p for i, p in enumerate(probe_programs(sc[1], sc[2])) if i % 5 == 0]
+        jobs += [(cd, pn, sp, sc) for cd in valid_candles(LEVELS) for pn, sp in Psc]
     sigs = set()
     res = core.pmap(_probe, jobs, chunksize=32)
     sigma, n = (progs.SIGMA6, 3) if ctx.quick else (progs.SIGMA8, 4)
@@ -184,7 +190,7 @@ def r0(ctx):
 def replay(case, ctx):
     emb = tuple(case.get('embedding', ctx.embedding))
     if 'split' in case:
-        return [Violation.from_json(v) for v in _split_all(None)['viols'] if v['case'] == case]
+        return [Violation.from_json(v) for v in _split_all(tuple(case['scale']) if case.get('scale') else None)['viols'] if v['case']['split'] == case['split'] and v['case']['price'] == case['price']]
     if 'probe_candle' in case:
         P = dict(probe_programs(emb[1], emb[2]))
         return [Violation.from_json(v) for v in _probe((tuple(case['probe_candle']), case['program'], P[case['program']], emb))['viols']]
